@@ -22,36 +22,60 @@ func TestC06(t *testing.T) {
 	r := mon.NewRunner(t, "C06")
 	rnd := r.Rand()
 	var cases []mon.CaseSpec
-	trs := []string{"inproc", "tcp"}
+	// Every tcp connection leaves a TIME_WAIT socket behind for a minute; the thorough tier would
+	// exhaust the ephemeral ports (bind: address already in use, for every check on the machine),
+	// so most stream-transport cases use ipc (same stream code path, no ports).
+	tcpPct := r.Pick(20, 5)
+	pickTr := func() string {
+		switch x := rnd.Intn(100); {
+		case x < 50:
+			return "inproc"
+		case x < 50+tcpPct:
+			return "tcp"
+		}
+		return "ipc"
+	}
 	base := func(mode string) spec {
-		return spec{Mode: mode, Tr: trs[rnd.Intn(2)], NPub: 1 + rnd.Intn(2), NSub: 1 + rnd.Intn(3), NCtx: 1 + rnd.Intn(3),
+		return spec{Mode: mode, Tr: pickTr(), NPub: 1 + rnd.Intn(2), NSub: 1 + rnd.Intn(3), NCtx: 1 + rnd.Intn(3),
 			RawPub: rnd.Intn(3) == 0, SubListens: rnd.Intn(2) == 0}
 	}
-	for i := 0; i < r.Pick(120, 2400); i++ {
+	for i := 0; i < r.Pick(1200, 60000); i++ {
 		sp := base("seq")
 		sp.XSub = []int{0, 0, 1, 1, 2}[rnd.Intn(5)]
 		sp.Steps = 4 + rnd.Intn(27)
 		cases = append(cases, mon.CaseSpec{Name: "seq", Spec: sp})
 	}
-	for i := 0; i < r.Pick(50, 1000); i++ {
+	for i := 0; i < r.Pick(400, 20000); i++ {
 		sp := base("conc")
 		sp.NSub = 1 + rnd.Intn(2)
-		sp.Prefill = rnd.Intn(2) == 0
-		sp.Steps = 20 + rnd.Intn(40) // subscription changes per context
+		sp.Prefill = rnd.Intn(3) != 0
+		sp.Spin = rnd.Intn(2) == 0
+		if sp.Spin {
+			sp.Steps, sp.Rounds = 100+rnd.Intn(200), 10+rnd.Intn(31)
+		} else {
+			sp.Steps, sp.Rounds = 20+rnd.Intn(40), 1+rnd.Intn(3) // Steps = subscription changes per context and round
+		}
 		cases = append(cases, mon.CaseSpec{Name: "conc", Spec: sp})
 	}
-	for i := 0; i < r.Pick(20, 400); i++ {
+	for i := 0; i < r.Pick(200, 10000); i++ {
 		sp := base("ovf-sub")
 		sp.NPub, sp.NSub, sp.NCtx = 1, 1, 2
 		sp.Steps = 2 + rnd.Intn(4)
 		cases = append(cases, mon.CaseSpec{Name: "ovf-sub", Spec: sp})
 	}
-	for i := 0; i < r.Pick(10, 200); i++ {
+	for i := 0; i < r.Pick(100, 5000); i++ {
 		sp := base("ovf-pub")
 		sp.NPub, sp.NSub, sp.NCtx = 1, 1+rnd.Intn(2), 1+rnd.Intn(2)
 		sp.WQ = []int{1, 2, 4, 8}[rnd.Intn(4)]
 		sp.Steps = 2 + rnd.Intn(3)
 		cases = append(cases, mon.CaseSpec{Name: "ovf-pub", Spec: sp})
+	}
+	// Recv racing with Unsubscribe on loaded queues, many rounds on one small topology (the case
+	// ends at the first violation): the schedule-dependent part of "in each publisher's order".
+	for i := 0; i < r.Pick(16, 96); i++ {
+		sp := spec{Mode: "conc", Tr: "inproc", NPub: 1, NSub: 1, NCtx: 1 + rnd.Intn(2), SubListens: rnd.Intn(2) == 0,
+			Prefill: true, Spin: true, Steps: 150 + rnd.Intn(150), Rounds: 1000, QLen: 1024}
+		cases = append(cases, mon.CaseSpec{Name: "conc-race", Spec: sp})
 	}
 	r.Run(cases, func(c *mon.Case) {
 		sp := c.Spec.(spec)
